@@ -25,7 +25,9 @@ _END = re.compile(r"(?:^|[^\w]|_)([^\W\d_]+)([.?!]['\"’”)]?|['\"’”)][.?!
 PLAIN = ["a", "to", "the", "word", "longer", "sentence", "alpha", "beta", "gamma", "delta,", "x", "verylongwordhere",
          "(note", "this)", "and", "or", "naïve", "café", "2024", "3.14", "e.g.", "U.S.", "Mr.", "x.", "OK.", "A.", "it's",
          "“quoted”", "state-of-the-art", "semi;", "colon:", "`code`", "[link](http://x.y)", "**bold**", "$5", "US$7", "A$9", "$12"]
-ENDS = ["end.", "stop!", "why?", "done.)", 'said."', "fine.", "okay.", "there?", "yes!", "it.", "so.'", "here.’", "now.”", "été."]
+ENDS = ["end.", "stop!", "why?", "done.)", 'said."', "fine.", "okay.", "there?", "yes!", "it.", "so.'", "here.’", "now.”", "été.",
+        # sentence ends by the documented rule (two letters or more, the last one lowercase, a period), whatever else they are
+        "etc.", "vs.", "approx.", "cf.", "viz.", "resp.", "incl.", "Inc.", "Ltd.", "et al.".split()[-1]]
 CONTAINERS = [("", ""), ("- ", "  "), ("> ", "> "), ("1. ", "   "), ("> - ", ">   ")]
 # task-list items: the checkbox is part of the paragraph's first line (it counts towards the 20 characters of clause (b))
 TASK_CONTAINERS = [("- ", "  "), ("1. ", "   "), ("> - ", ">   ")]
@@ -75,6 +77,8 @@ class C11(Prop):
             if r.random() < 0.15:
                 ti, ts = r.choice(TASK_CONTAINERS)
                 c = dict(c, ii=ti, si=ts, sentences=[[r.choice(["[ ]", "[x]"])] + list(S[0])] + [list(x) for x in S[1:]], task=True)
+            if r.random() < 0.2:
+                c["min_line"] = r.choice([0, 8, 12, 30, 45])  # the minimum line length is a parameter of the public wrapper
             if r.random() < 0.3:
                 # other white space than one blank between words (a tab, an em space, an ideographic space, two blanks)
                 nw = sum(len(x) for x in S)
@@ -182,11 +186,20 @@ class C11(Prop):
             self.judge_body(body, width, ii, si, dict(case, via="reformat_text/document", block=b["src"][:80]), col)
 
     # --------------------------------------------------------------------------------
-    def run_both(self, words, width, ii, si, seps=None):
+    def run_both(self, words, width, ii, si, seps=None, min_line=None):
         """-> [(via, lines without indents)]. seps: white space written between consecutive words (default one blank each)."""
         text = " ".join(words) if not seps else "".join(w + (seps[i] if i < len(seps) else "") for i, w in enumerate(words)).rstrip()
         out = []
-        wrapper = fm.call(fm.line_wrap_by_sentence, width=width, is_markdown=True)
+        wrapper = fm.call(fm.line_wrap_by_sentence, width=width, is_markdown=True, **({} if min_line is None else {"min_line_len": min_line}))
+        if min_line is not None and min_line != MIN_LINE:
+            # only the wrapper factory takes the parameter; reformat_text always uses the default
+            if isinstance(wrapper, fm.Raised):
+                return out
+            res = fm.call(wrapper, text, ii, si)
+            if isinstance(res, str):
+                lines = res.split("\n")
+                out.append(("wrapper", [lines[0][len(ii):]] + [ln[len(si):] if ln.startswith(si) else ln for ln in lines[1:]]))
+            return out
         if not isinstance(wrapper, fm.Raised):
             res = fm.call(wrapper, text, ii, si)
             if isinstance(res, str):
@@ -202,9 +215,12 @@ class C11(Prop):
     def _check_placement(self, case, col):
         words = [w for s in case["sentences"] for w in s]
         width, ii, si = case["width"], case["ii"], case["si"]
-        for via, body in self.run_both(words, width, ii, si, case.get("seps")):
+        ml = case.get("min_line")
+        for via, body in self.run_both(words, width, ii, si, case.get("seps"), ml):
             col.case()
             col.mon("placement")
+            if ml is not None:
+                col.hist("min_line_len", ml)
             if " ".join(body).split() != " ".join(words).replace("\\", "\\").split() and \
                     [w.lstrip("\\") for w in " ".join(body).split()] != [w.lstrip("\\") for w in words]:
                 col.count("placement_skipped_text_not_reproduced")
@@ -212,9 +228,9 @@ class C11(Prop):
             if len(body) >= 2:
                 col.distinct("placement", via, " ".join(words), width, ii)
             col.hist("width", width // 20 * 20)
-            self.judge_body(body, width, ii, si, dict(case, via=via), col)
+            self.judge_body(body, width, ii, si, dict(case, via=via), col, min_line=ml if ml is not None else MIN_LINE)
 
-    def judge_body(self, body, width, ii, si, sub, col, kept_breaks=()):
+    def judge_body(self, body, width, ii, si, sub, col, kept_breaks=(), min_line=MIN_LINE):
         """Clauses (a) and (b) on the lines of one output paragraph (indents already removed). kept_breaks: indices i such that the
         break after line i is one the statement exempts (tag-adjacent newline / hard break)."""
         if True:
@@ -226,7 +242,7 @@ class C11(Prop):
                 acc = 0
                 for k, w in enumerate(ws[:-1]):
                     acc += len(w) + (1 if k else 0)
-                    if is_sentence_end(w) and acc >= MIN_LINE:
+                    if is_sentence_end(w) and acc >= min_line:
                         col.violation("placement", "C11/placement/sentence-end-not-followed-by-break", sub,
                                       {"line": ln, "word": w, "chars_so_far": acc})
                         break
@@ -245,7 +261,7 @@ class C11(Prop):
                     # merged into, and its first line stays wrapped as if it still started there
                     # (exact signature: the line fits behind the short line without the joining space, but not
                     # with it: len(prev) + len(line) == width, which is only possible with an empty indent)
-                    if i >= 1 and len(body[i - 1]) < MIN_LINE and is_sentence_end(body[i - 1].split(" ")[-1]) \
+                    if i >= 1 and len(body[i - 1]) < min_line and is_sentence_end(body[i - 1].split(" ")[-1]) \
                             and len(body[i - 1]) + len(ln) == width - (len(ii) if i - 1 == 0 else len(si)):
                         desc = "C11/placement/unforced-break/first-line-after-failed-short-line-merge"
                     col.violation("placement", desc, sub, {"line": ln, "next_word": nxt, "width": width, "indent": ind,
